@@ -1883,6 +1883,7 @@ class locked_ref:
         self._file: _GitFile | None = None
         self._realname: Ref | None = None
         self._deleted = False
+        self._written = False
 
     def __enter__(self) -> Self:
         """Enter the context manager and acquire the lock.
@@ -1920,7 +1921,9 @@ class locked_ref:
           traceback: Traceback if an exception occurred
         """
         if self._file:
-            if exc_type is not None or self._deleted:
+            # Only commit the lock file if something was written to it;
+            # otherwise an empty file would replace the ref.
+            if exc_type is not None or self._deleted or not self._written:
                 self._file.abort()
             else:
                 self._file.close()
@@ -1965,6 +1968,7 @@ class locked_ref:
         self._file.truncate()
         self._file.write(new_ref + b"\n")
         self._deleted = False
+        self._written = True
 
     def set_symbolic_ref(self, target: Ref) -> None:
         """Make this ref point at another ref.
@@ -1980,6 +1984,7 @@ class locked_ref:
         self._file.truncate()
         self._file.write(SYMREF + target + b"\n")
         self._deleted = False
+        self._written = True
 
     def delete(self) -> None:
         """Delete the ref file while holding the lock."""
